@@ -55,6 +55,11 @@ func init() {
 		short: "run grammar, tables, effects, options in sequence (exit code = max)",
 		run:   runAll,
 	})
+	subcommands = append(subcommands, subcommand{
+		name:  "locals",
+		short: "print the names every library function declares (pins/locals.json)",
+		run:   runLocals,
+	})
 }
 
 func usage() {
@@ -72,6 +77,7 @@ func main() {
 		os.Exit(64)
 	}
 	name := os.Args[1]
+	loadPinnedLocals()
 	if name == "-h" || name == "-help" || name == "--help" || name == "help" {
 		usage()
 		return
